@@ -313,6 +313,44 @@ theorem quiescent_no_pending (es : List SysEv) (s : Sys) (hr : sysRun {} es = so
     have := pending_serials_are_on_their_way es s hr c l hl ha k n hk (by rw [hp]; simp)
     simp [hu, hd] at this
 
+/-- the messages of the broker that the three agreement theorems cover: serial replies of the 11 plain kinds, everything about
+bus listeners, everything about channels -/
+def covered (m : Rsp) : Bool := plainReply m || isL m || isC m
+
+/-- the messages the client never refuses, whatever its state -/
+def harmless : Rsp → Bool
+  | .destroyObjectReply .. | .destroyServiceReply .. | .callFunction .. | .callFunction2 .. | .callFunctionReply ..
+  | .subscribeEvent .. | .unsubscribeEvent .. | .emitEvent .. | .serviceDestroyed .. | .emitBusEvent none _ | .shutdown => true
+  | _ => false
+
+theorem harmless_never_refused (s : CSt) (m : Rsp) (h : harmless m = true) : onRecv s m ≠ .unexpected := by
+  cases m <;> simp only [harmless, Bool.false_eq_true] at h <;> simp only [onRecv] <;> (repeat' split) <;> simp_all [harmless]
+
+open Aldrin.System in
+/-- In every interleaving of the composed system, the next message of a client is not refused if it is of a covered
+or of a harmless kind. Of the broker's 37 message kinds 20 are covered and 10 are harmless; the other seven are the
+version-gated `abortFunctionCall`, `queryIntrospection`, `queryIntrospectionReply`, the owner-directed
+`subscribeAllEvents` / `unsubscribeAllEvents`, and `subscribeAllEventsReply` / `unsubscribeAllEventsReply`, which are
+refused exactly when they say `NotSupported`. -/
+theorem covered_messages_never_refused (es : List SysEv) (s : Sys) (hr : sysRun {} es = some s)
+    (c : ConnId) (l : Link) (hl : s.links c = some l) (m : Rsp) (rest : List Rsp) (hd : l.down = m :: rest)
+    (hc : covered m = true ∨ harmless m = true) : onRecv l.mon m ≠ .unexpected := by
+  rcases hc with hc | hh
+  rotate_left
+  · exact harmless_never_refused l.mon m hh
+  simp only [covered, Bool.or_eq_true] at hc
+  rcases hc with (hp | hL) | hC
+  · exact broker_replies_never_refused es s hr c l hl m rest hd hp
+  · exact listener_messages_never_refused es s hr c l hl m rest hd hL
+  · exact channel_messages_never_refused es s hr c l hl m rest hd hC
+
+/-- how many of the broker's message kinds are covered -/
+example : ([Rsp.createObjectReply 0 .duplicate, .createServiceReply 0 .duplicate, .subscribeEventReply 0 .ok, .queryServiceVersionReply 0 none,
+    .queryServiceInfoReply 0 none, .subscribeServiceReply 0 .ok, .createChannelReply 0 0, .closeChannelEndReply 0 .ok, .syncReply 0,
+    .createBusListenerReply 0 0, .destroyBusListenerReply 0 .ok, .startBusListenerReply 0 .ok, .stopBusListenerReply 0 .ok,
+    .emitBusEvent (some 0) (.objCreated ⟨0, 0⟩), .busListenerCurrentFinished 0, .claimChannelEndReply 0 .receiverClaimed,
+    .channelEndClosed 0 .sender, .channelEndClaimed 0 .sender 0, .itemReceived 0 [], .addChannelCapacity 0 0].all covered) = true := by decide
+
 namespace SystemExample
 open Aldrin.System
 
